@@ -505,7 +505,7 @@ def run_core(prop, spec, tier, seed, work, replay):
                 for s in trig:
                     for e in groups0[s]:
                         fh.write(json.dumps(e) + "\n")
-            okt, nevt, failst = validate_all(work, "Trace", "TraceSpec", consts, ft, "valk", max_viol=40)
+            okt, nevt, failst = validate_all(work, "Trace", "TraceSpec", consts, ft, "valk", max_viol=15)
             fails += failst
             rest = work.path("rest.ndjson")
             tset = set(trig)
